@@ -341,7 +341,7 @@ def run_shard(spec):
         nt, cl = check(prog, r, s)
         st_.case(["rand", prog, [d[2] for d in r.decisions]], nt, cl, sample={"program": prog, "schedule": sched} if count[0] % 400 == 1 else None)
 
-    res = runner.hyp_search(st.tuples(programs(), harness.SCHEDULES), body, seed=runner.derive_seed(seed, ID, i), max_examples=700 if tier == "quick" else 10000)
+    res = runner.hyp_search(st.tuples(programs(), harness.SCHEDULES), body, seed=runner.derive_seed(seed, ID, i), max_examples=2000 if tier == "quick" else 20000)
     if res is not None:
         (prog, sched), v = res
         st_.fail({"kind": "random", "program": prog, "schedule": sched}, v.message, v.signature)
